@@ -2663,6 +2663,13 @@ where
     ) -> Vec<GenericEvent<PacketIdType>> {
         let mut events = Vec::new();
 
+        if self.status == ConnectionStatus::Connected {
+            // A second CONNACK on an established connection is a protocol violation and must
+            // not touch the session state.
+            Self::handle_v3_1_1_error(MqttError::ProtocolError, &mut events);
+            return events;
+        }
+
         match v3_1_1::Connack::parse(raw_packet.data_as_slice()) {
             Ok((packet, _consumed)) => {
                 if packet.return_code() == ConnectReturnCode::Accepted {
@@ -2690,6 +2697,13 @@ where
         raw_packet: RawPacket,
     ) -> Vec<GenericEvent<PacketIdType>> {
         let mut events = Vec::new();
+
+        if self.status == ConnectionStatus::Connected {
+            // A second CONNACK on an established connection is a protocol violation and must
+            // not touch the session state.
+            self.handle_v5_0_error(MqttError::ProtocolError, &mut events);
+            return events;
+        }
 
         match v5_0::Connack::parse(raw_packet.data_as_slice()) {
             Ok((packet, _consumed)) => {
